@@ -138,7 +138,10 @@ func indexedSelectNonRowid(
 
 	var cbErr error
 	err = ind.Scan(func(r sdb.Record) bool {
-		setKey(r, cols, pk)
+		if err := setKey(r, cols, pk); err != nil {
+			cbErr = err
+			return true
+		}
 
 		var found sdb.Record
 		err := tab.ScanEq(pk, func(row sdb.Record) bool {
@@ -199,7 +202,10 @@ func indexedSelectEqNonRowid(
 	err = ind.ScanEq(
 		key,
 		func(r sdb.Record) bool {
-			setKey(r, cols, pk)
+			if err := setKey(r, cols, pk); err != nil {
+				cbErr = err
+				return true
+			}
 
 			var found sdb.Record
 			err := tab.ScanEq(pk, func(row sdb.Record) bool { found = row; return true })
@@ -224,8 +230,13 @@ func indexedSelectEqNonRowid(
 
 // make a key from columns from the record
 // updates key
-func setKey(r sdb.Record, indexes []int, key sdb.Key) {
+func setKey(r sdb.Record, indexes []int, key sdb.Key) error {
 	for i, v := range indexes {
+		if v >= len(r) {
+			// index entry has fewer columns than the schema says
+			return sdb.ErrCorrupted
+		}
 		key[i].V = r[v]
 	}
+	return nil
 }
